@@ -16,8 +16,14 @@ import vf
 
 def run(ctx):
     ctx.tlc('ProxyServer', 'MC_PS_c10_quick.cfg', label='PanicConfined (liveness under fairness)', timeout=1800)
-    trace, report = lc.record(ctx)
+    trace, report = lc.record(ctx, census=True)
     accepted, rejected, lines = lc.validate(ctx, trace)
+    for sc in report:
+        if sc['family'] == 'leakcheck':
+            # a client that leaves goroutines (and what they hold) behind for good can repeat that at will: the proxy does not survive it
+            for g in sc.get('leaked') or []:
+                ctx.violation({'check': 'C10', 'kind': 'goroutine_never_ended'},
+                              'after every scenario ended and every server was stopped a goroutine is still inside the proxy: %s' % g, sc)
     for sc in report:
         if sc['family'] == 'iofault':
             for n in sc.get('notes') or []:
